@@ -23,17 +23,20 @@ ARGS = (("filename", "fn", "f"), ("dirname", "dn", "d"), ("fileext", "fe", "e"),
         ("suffix", "sx", "s"))
 
 
+SVAL = "STATIC"
+
+
 def _render(field):
     if not field["has"]:
         return None
-    return "".join(VAL if t[0] == "V" else "%s%d" % (t[0], t[1]) for t in field["v"])
+    return "".join(VAL if t[0] == "V" else SVAL if t[0] == "SV" else "%s%d" % (t[0], t[1]) for t in field["v"])
 
 
 def mf_key(rec):
     def name(el):
         return "".join(l for _, flag, l in ARGS if el[flag]) + ("!" if el["ow"] else "") + ("?" if el["nk"] else "")
     c0 = rec["c0"]
-    return "%s|var=%d,name=%d,affix=%d" % (">".join(name(el) for el in rec["chain"]),
+    return "%s|var=%s,name=%d,affix=%s" % (">".join(name(el) for el in rec["chain"]),
                                            c0["var"], c0["fn0"], c0["ax0"])
 
 
@@ -41,13 +44,15 @@ def replay_makefilename(ctx, rec):
     import lena.output
     c0 = rec["c0"]
     context = {}
-    if c0["var"]:
+    if c0["var"] in ("run", "both"):
         context["var"] = VAL
     out0 = {}
     if c0["fn0"]:
         out0["filename"] = "F0"
-    if c0["ax0"]:
+    if c0["ax0"] == "some":
         out0["prefix"], out0["suffix"] = "P0", "S0"
+    elif c0["ax0"] == "empty":      # affixes that are there but empty strings
+        out0["prefix"], out0["suffix"] = "", ""
     if out0:
         context["output"] = out0
     val = ("data", context) if context else "data"
@@ -56,7 +61,11 @@ def replay_makefilename(ctx, rec):
         for i, el in enumerate(rec["chain"], 1):
             kw = {key: "%s%d" % (letter, i) + ("{{var}}" if el["nk"] else "")
                   for key, flag, letter in ARGS if el[flag]}
-            val = lena.output.MakeFilename(overwrite=el["ow"], **kw)(val)
+            mf = lena.output.MakeFilename(overwrite=el["ow"], **kw)
+            if c0["var"] in ("static", "both"):
+                # the static context (as a Sequence would set it); the run-time context has precedence
+                mf._set_context({"var": SVAL, "other": {"x": 1}})
+            val = mf(val)
         res = val[1].get("output", {}) if isinstance(val, tuple) else {}
         got = {k: res.get(k) for k in FIELDS}
         data_ok = (val[0] if isinstance(val, tuple) else val) == "data"
@@ -87,13 +96,18 @@ def report_makefilename(ctx, failures):
 DEFAULT = {"m1": "check", "m2": "check", "lo": False, "po": False}
 
 
-def items_from_export(recs):
-    """Every exported history comes with reuse = FALSE (pipeline objects built anew for every run) and, for
-    the plain chain, with reuse = TRUE (the same objects run again and again)."""
+def items_from_export(recs, alternate):
+    """thorough: every plain history is exported with reuse = FALSE (pipeline objects built anew for every run)
+    and with reuse = TRUE (the same objects run again and again) and replayed both ways.
+    quick (alternate): histories are exported once; a deterministic half of the plain ones (every second
+    one) is replayed with reused objects, the other half with fresh objects."""
     items = []
-    for r in recs:
+    for i, r in enumerate(recs):
         steps = [x["touched"] for x in r["h"]]
-        items.append((r["sc"], r["set"], steps, bool(r["reuse"])))
+        same = bool(r["reuse"])
+        if alternate and not r["sc"]["grouped"]:
+            same = i % 2 == 1
+        items.append((r["sc"], r["set"], steps, same))
     return items
 
 
@@ -126,33 +140,34 @@ def random_history(rnd):
 
 
 def binding_demo(ctx):
-    """Corrupt one recorded observation of an accepted history of a group of two sources."""
+    """Corrupt recorded observations of an accepted history of a group of two sources: Trace_Output must
+    report the right predicate for exactly the corrupted run (one TLC run for the original and both corruptions)."""
     import os
     d = os.path.join(ctx.workdir, "demo")
     ws = ol.Workspace(os.path.join(d, "ws"))
     sc = {"srcs": [2], "obj": [False], "grouped": True}
     with ws.activated():
         runs = ol.run_history(ws, sc, DEFAULT, [{}, {"data": [[1, 2]]}, {}])
-    good = {"sc": sc, "set": DEFAULT, "runs": runs}
-    notes = []
-    for field, pred in (("pdf", "Current_pdf"), ("launch", "NoRedo")):
+    recs = [{"sc": sc, "set": DEFAULT, "runs": runs}]
+    plan = (("pdf", "Current_pdf", 1), ("launch", "NoRedo", 2))
+    for field, pred, where in plan:
         bad = {"sc": sc, "set": DEFAULT, "runs": [dict(r, obs=[dict(o) for o in r["obs"]]) for r in runs]}
+        o = bad["runs"][where]["obs"][0]
         if field == "pdf":       # the pdf of the second run was made from the old data of the second source
-            o = bad["runs"][1]["obs"][0]
             o["files"] = dict(o["files"], pdf=dict(o["files"]["pdf"], d=[1, 1]))
-            where = 1
         else:                    # a converter launched in the third run although nothing changed
-            o = bad["runs"][2]["obs"][0]
             o["launched"] = dict(o["launched"], png=True)
-            where = 2
-        verdicts, stats = ol.validate_shard(d, [good, bad], "demo")
-        ctx._account("trace", "Trace_Output", stats["cfg"], ol._Res(stats))
-        if stats["exit"] != 0:
-            raise core.MachineryError("binding demo: TLC failed: %s" % stats["tail"])
-        if 0 in verdicts:
-            ctx.extra.setdefault("binding_demo", []).append("skipped: the uncorrupted history was rejected")
-            return
-        got = verdicts.get(1, [])
+        recs.append(bad)
+    verdicts, stats = ol.validate_shard(d, recs, "demo")
+    ctx._account("trace", "Trace_Output", stats["cfg"], ol._Res(stats))
+    if stats["exit"] != 0:
+        raise core.MachineryError("binding demo: TLC failed: %s" % stats["tail"])
+    if 0 in verdicts:
+        ctx.extra.setdefault("binding_demo", []).append("skipped: the uncorrupted history was rejected")
+        return
+    notes = []
+    for k, (field, pred, where) in enumerate(plan, 1):
+        got = verdicts.get(k, [])
         if not got or min(j for j, _, _ in got) != where or pred not in [q for j, q, _ in got if j == where]:
             raise core.MachineryError("Trace_Output does not bind: corrupted %s in run %d, verdicts %r" % (field, where, got))
         notes.append("Trace_Output: run %d with %s corrupted -> %s reported for exactly that run; uncorrupted history accepted"
@@ -167,49 +182,46 @@ def run(ctx):
     ctx.assume("under Write(existing_unchanged=True) the histories keep existing files up to date (the option's "
                "documented assumption); NoRedo is not claimed when an overwrite option is set nor for data written "
                "through its own write method (docstring of Write.run); a grouped pipeline is built anew for every run")
-    # ---- design level
+    # ---- design level (one TLC run explores a whole set of plans: pipelines with their own bounds)
     ctx.mc("Output", "Output_%s.cfg" % tag, coverage=True, must_cover=MUST)
-    for extra in (("2",) if not ctx.thorough else ("2", "3", "4")):
-        ctx.mc("Output", "Output_%s%s.cfg" % (tag, extra))
-    notes = []
-    for cfg in ("Output_pinned.cfg", "Output_pinned_group.cfg"):
-        pinned = ctx.mc("Output", cfg, expect_violation="report")
-        notes.append("%s (CreatedSetsChanged=FALSE): TLC refutes %s" % (cfg, pinned.violated or "nothing"))
-    ctx.extra["model_of_pinned_design"] = notes
-    # a reused RenderLaTeX that keeps the template it loaded first, in the same model
-    stale = ctx.mc("Output", "Output_noreload.cfg", expect_violation="report")
-    ctx.extra["model_without_template_reload"] = "AutoReload=FALSE, reused objects: TLC refutes %s" % (
-        stale.violated or "nothing")
-    ctx.mc("MakeFilename", "MakeFilename_%s.cfg" % tag, coverage=True, must_cover=("Step",))
     if ctx.thorough:
-        ctx.mc("MakeFilename", "MakeFilename_thorough2.cfg")
-    # ---- MakeFilename: spec -> code
+        ctx.mc("Output", "Output_thorough2.cfg")
+        # the pinned Write (a created file leaves output.changed alone) and a reused RenderLaTeX that keeps the
+        # template it loaded first, in the same model
+        pinned = ctx.mc("Output", "Output_pinned.cfg", expect_violation="report")
+        ctx.extra["model_of_pinned_design"] = "CreatedSetsChanged=FALSE: TLC refutes %s" % (pinned.violated or "nothing")
+        stale = ctx.mc("Output", "Output_noreload.cfg", expect_violation="report")
+        ctx.extra["model_without_template_reload"] = "AutoReload=FALSE, reused objects: TLC refutes %s" % (
+            stale.violated or "nothing")
+        ctx.mc("MakeFilename", "MakeFilename_thorough.cfg", coverage=True, must_cover=("Step",))
+    # ---- MakeFilename: the export run also checks the invariants and action properties of the model
     recs = ctx.export("MakeFilename", "MakeFilename_%s_export.cfg" % tag, min_records=1000)
     report_makefilename(ctx, [f for f in (replay_makefilename(ctx, rec) for rec in recs) if f])
     ctx.sample({"makefilename_behaviour": recs[len(recs) // 3]})
+    ctx.extra["makefilename_scenarios"] = len(recs)
     del recs
-    # ---- output chain: spec -> code
+    # ---- output chain: spec -> code, and code -> spec (random longer histories), validated in one wave of TLC runs
     items = []
     sampled = False
-    for part in ("a", "b", "c", "d") + (("e", "f", "g") if ctx.thorough else ()):
-        recs = ctx.export("Output", "Output_%s_export_%s.cfg" % (tag, part), min_records=50)
+    for cfg in (("Output_quick_export.cfg",) if not ctx.thorough else
+                ("Output_thorough_export_1.cfg", "Output_thorough_export_2.cfg")):
+        recs = ctx.export("Output", cfg, min_records=50)
         grouped = [x for x in recs if x["sc"]["grouped"]]
         if grouped and not sampled:
             r = grouped[len(grouped) // 2]
             ctx.sample({"exported_history": {"sc": r["sc"], "set": r["set"],
                                              "touched_before_each_run": [x["touched"] for x in r["h"]]}})
             sampled = True
-        items.extend(items_from_export(recs))
+        items.extend(items_from_export(recs, alternate=not ctx.thorough))
     ctx.extra["exported_histories"] = len(items)
-    ol.check_histories(ctx, items, "export")
-    # ---- code -> spec: random longer histories
     rnd = random.Random(ctx.seed)
-    ol.check_histories(ctx, [random_history(rnd) for _ in range(2000 if ctx.thorough else 200)], "random")
+    items.extend(random_history(rnd) for _ in range(2000 if ctx.thorough else 120))
+    ol.check_histories(ctx, items, "replay")
     binding_demo(ctx)
     return ctx.finish(
         rule="S2C: every history of the bounded Output model (touch subsets of bounded size before each of 2-3 runs, "
              "1-3 plots or groups of 2-3 sources, string / histogram / graph / write-method sources, Write / converter "
-             "options) replayed on the real plain or grouped chain with stub converters; every MakeFilename chain of the "
-             "model compared exactly; C2S: seeded random histories (<= 6 runs, <= 4 plots or groups) - all runs judged by "
-             "Trace_Output.tla; non-trivial = at least two runs / two elements",
+             "options, fresh and reused pipeline objects) replayed on the real plain or grouped chain with stub converters; "
+             "every MakeFilename chain of the model compared exactly; C2S: seeded random histories (<= 6 runs, <= 4 plots "
+             "or groups) - all runs judged by Trace_Output.tla; non-trivial = at least two runs / two elements",
         exhaustive=True)
